@@ -48,7 +48,7 @@ SPEC = {
 }
 # on the ignoring path a decimal may be taken as the bytes it is made of, without conversion: a decimal over bytes and a
 # big-decimal are length-delimited, a decimal over a fixed is the fixed's size
-IGNORED_RAW = {'Decimal': [[('LENDELIM',)], [('SIZED',)]], 'BigDecimal': [[('LENDELIM',)]]}
+IGNORED_RAW = {'Decimal': [[('LENDELIM',)], [('SIZED',)], [('LENDELIM',), ('SIZED',)]], 'BigDecimal': [[('LENDELIM',)]]}   # (which read goes with which representation: C12)
 # which visitor method may receive the value of a kind when the cell reads it itself
 VISITS = {
     'Null': {'unit', 'none'},
@@ -673,23 +673,9 @@ def bounds_rule(ctx):
         ctx.ob('BOUNDS', 'SliceRead::skip_bytes', False, None, 'anchor not found')
     else:
         ctx.touched(b)
-        gets = [(bb, t) for bb, t in b.calls() if call_matches(t, ['slice::<impl [T]>::get'])]
-        ok = len(gets) == 1
-        if ok:
-            bb, t = gets[0]
-            ro = origin(b, t['args'][1])
-            ok = ro.params() == {2} and 'try_into' in ro.flags and not ro.has_arith()
-            # None => Err
-            none_err = False
-            for sbb in sorted(b.live_blocks()):
-                if b.term(sbb)['k'] == 'switch':
-                    si = b.switch_info(sbb)
-                    if si.get('kind') == 'enum' and si.get('adt') == 'core::option::Option':
-                        nb = si['variants'].get('None', si['otherwise'] if 'None' in (si.get('otherwise_variants') or []) else None)
-                        if nb is not None and all_paths_err(b, nb):
-                            none_err = True
-            ok = ok and none_err
-        ctx.ob('BOUNDS', 'SliceRead::skip_bytes', ok, short_loc(b.span), 'advance by slice.get(n..) with None => Err: %s' % ok)
+        sh = slice_advance_shape(b)
+        ok = sh is not None
+        ctx.ob('BOUNDS', 'SliceRead::skip_bytes', ok, short_loc(b.span), 'advance by slice.get(n..) with None => Err, or by &slice[n..] under n <= len: %s' % ok)
     b = fn_by_label(f, '<de::read::take::SliceRead as de::read::take::Take>::take') or fn_by_label(f, '<de::read::SliceRead as de::read::take::Take>::take')
     if b is None:
         ctx.ob('BOUNDS', 'SliceRead::take', False, None, 'anchor not found')
